@@ -171,6 +171,14 @@ func SelfTest(prop, repo, verif string) []MutantResult {
 				r.Result, r.Detail = "SKIPPED", "patch context not found exactly once in the current tree"
 			case parsed.LoadError != "":
 				r.Result, r.Detail = "MISSED", "mutant does not type-check: "+parsed.LoadError
+			case m.Expect == "":
+				// behaviour-preserving variant: the checker must stay silent
+				if len(parsed.Bad) == 0 {
+					r.Result = "SILENT"
+				} else {
+					r.Result = "MISSED"
+					r.Detail = "false alarm on a behaviour-preserving variant: " + parsed.Bad[0].Key
+				}
 			default:
 				r.Result = "MISSED"
 				for _, o := range parsed.Bad {
